@@ -126,6 +126,8 @@ UNARY = {
     'rt_polarity': lambda a: a.polarity().unpolarity(), 'rt_unpolarity': lambda a: a.unpolarity().polarity(),
     'rt_dual': lambda a: a.dual().undual(), 'rt_undual': lambda a: a.undual().dual(),
     'wedge_hodge': lambda a: a ^ a.hodge(),
+    # the algebraic skeleton of exp with formal functions (C19): h(s) = s, f(l) = l + 1, g(l) = 2 l - 3
+    'expf': lambda a: a.exp(cosh=lambda l: l + 1, sinhc=lambda l: 2 * l - 3, sqrt=lambda s: s),
 }
 BINARY = {
     'gp': lambda a, b: a * b, 'op': lambda a, b: a ^ b, 'ip': lambda a, b: a | b,
